@@ -23,3 +23,4 @@ def run(ck):
     sampling.r11_rounding_epsilon(ck, P)     # C08-R11: the C fast-path fetcher and the general fetcher start their kernels at the same pixel
     tables.r15_pixbuf_substitution(ck, P)
     codec.r12_simd_helpers(ck, P, 'C02-R16')
+    sampling.r13_weight_vector_tracks_position(ck, P, 'C02-R17')
